@@ -124,6 +124,11 @@ def run(R):
             h = hdr[0] if hdr else hb
             R.check(h == want_hdr[kind](logn), "C05-header", site, f"writes header byte 0x{want_hdr[kind](logn):02x}, the one the decoder accepts",
                     f"header byte written is {h if h is None else hex(h)}, the decoder accepts only 0x{want_hdr[kind](logn):02x}", key=f"hdr|{kind}|{N}")
+        # the signer's and the decoder's length constant is the specified signature size (shared with C02)
+        from . import c02
+        par = c02.eval_parameters(S, N)
+        R.check(par["sig_bytelen"] == spec["sig_bytelen"] == pq["sig_bytes"], "C05-size", f"FalconVariant::parameters() n={N}", f"sig_bytelen = {par['sig_bytelen']}: sign emits and from_bytes expects the specified signature size",
+                f"sig_bytelen = {par['sig_bytelen']}, specification {spec['sig_bytelen']}", key=f"siglenparam|{N}")
         # (2) representability postcondition of gen_b0
         clause_repr(R, N, w)
         # (3) from_b0 deterministic
